@@ -318,7 +318,7 @@ fn encode_udp_packet(payload: &[u8]) -> Result<Bytes> {
 
 /// Wrappers exposing the private wire-format functions to the verification harness.
 #[cfg(feature = "verif")]
-pub mod verif_api {
+pub mod verif_udp_client {
     use super::*;
     pub fn encode_initial_request(target: SocketAddr) -> Result<Bytes> {
         super::encode_initial_request(target)
